@@ -72,9 +72,23 @@ func runOne(ctx context.Context, s solverSpec, file string, timeoutS int) (statu
 // with every assumption, and finally once more with a longer timeout (robustness under machine load).
 func (lib *SpecLib) Solve(o *Obligation, timeoutS int, all bool) *SolveResult {
 	o.NoSlice = false
+	o.Slice = 0
+	if o.Canary {
+		o.Slice = 1
+	}
 	r := lib.solve1(o, timeoutS, all, "")
 	if r.Status == "unsat" || o.Canary {
 		return r
+	}
+	n0 := len(o.Assumes)
+	if n0 != len(o.fullAssumes) {
+		o.Slice = 1
+		if len(coneOfInfluence(o.fullAssumes, o.Goal, false)) != n0 {
+			r1 := lib.solve1(o, timeoutS, all, ".cone")
+			if r1.Status == "unsat" {
+				return r1
+			}
+		}
 	}
 	if len(o.fullAssumes) != len(o.Assumes) {
 		o.NoSlice = true
